@@ -5,30 +5,30 @@
 #include "unit.h"
 #include "vp_models_impl.h"
 int nondet_int(void); _Bool nondet_bool(void);
-struct vp_carr_int_3 arr;
-_Bool ans[4][3]; int calls[4][3];
-static _Bool abs_eval(int k, int *v) { long j = v - &arr.a[0]; __CPROVER_assert(0 <= j && j < 3, "[C11] SAFETY element matcher is only ever given a member of the range"); calls[k][j]++; return ans[k][j]; }
+struct vp_carr_int_3 arr; int in_arr[3]; int in_v[3];
+_Bool in_ans[4][3]; int calls[4][3];
+static _Bool abs_eval(int k, int *v) { long j = v - &arr.a[0]; __CPROVER_assert(0 <= j && j < 3, "[C11] SAFETY element matcher is only ever given a member of the range"); calls[k][j]++; return in_ans[k][j]; }
 _Bool f__ZNK14vp_trompeloeil6vp_absILi1EE7matchesERKi(struct S_vp_abs_1 *self, int *v) { return abs_eval(1, v); }
 _Bool f__ZNK14vp_trompeloeil6vp_absILi2EE7matchesERKi(struct S_vp_abs_2 *self, int *v) { return abs_eval(2, v); }
 _Bool f__ZNK14vp_trompeloeil6vp_absILi3EE7matchesERKi(struct S_vp_abs_3 *self, int *v) { return abs_eval(3, v); }
 #include "unit.c"
-static void init(void) { for (int k = 1; k <= 3; k++) for (int j = 0; j < 3; j++) { ans[k][j] = nondet_bool(); calls[k][j] = 0; } for (int j = 0; j < 3; j++) arr.a[j] = nondet_int(); }
+static void init(void) { for (int k = 1; k <= 3; k++) for (int j = 0; j < 3; j++) { in_ans[k][j] = nondet_bool(); calls[k][j] = 0; } for (int j = 0; j < 3; j++) { in_arr[j] = nondet_int(); arr.a[j] = in_arr[j]; } }
 #define U(PM) PM##_T1 u; u.p = &arr;
 void r_is(void) { init(); U(RG_IS3) RG_IS3_T0 m3; RG_IS2_T0 m2;
-  __CPROVER_assert(RG_IS3(&m3, &u) == (ans[1][0] && ans[2][1] && ans[3][2]), "[C11] POST range_is_accepts_exactly_equal_length_element_wise_matches");
+  __CPROVER_assert(RG_IS3(&m3, &u) == (in_ans[1][0] && in_ans[2][1] && in_ans[3][2]), "[C11] POST range_is_accepts_exactly_equal_length_element_wise_matches");
   __CPROVER_assert(RG_IS2(&m2, &u) == 0, "[C11] POST range_is_rejects_a_longer_range");
   __CPROVER_assert(0, "REACH! r_is"); }
-void r_is_values(void) { init(); U(RG_IS_VALUES) RG_IS_VALUES_T0 m; int v0 = nondet_int(), v1 = nondet_int(), v2 = nondet_int(); m.value._0 = v0; m.value._1 = v1; m.value._2 = v2;
+void r_is_values(void) { init(); U(RG_IS_VALUES) RG_IS_VALUES_T0 m; int v0, v1, v2; in_v[0] = v0 = nondet_int(); in_v[1] = v1 = nondet_int(); in_v[2] = v2 = nondet_int(); m.value._0 = v0; m.value._1 = v1; m.value._2 = v2;
   __CPROVER_assert(RG_IS_VALUES(&m, &u) == (arr.a[0] == v0 && arr.a[1] == v1 && arr.a[2] == v2), "[C11] POST range_is_with_plain_values_compares_element_wise");
   __CPROVER_assert(0, "REACH! r_is_values"); }
 void r_starts_ends(void) { init(); U(RG_STARTS2) RG_STARTS2_T0 s; RG_ENDS2_T0 e; RG_STARTS3_T0 s3; RG_ENDS3_T0 e3;
-  __CPROVER_assert(RG_STARTS3(&s3, &u) == (ans[1][0] && ans[2][1] && ans[3][2]), "[C11] POST range_starts_with_accepts_a_range_of_exactly_the_listed_length");
-  __CPROVER_assert(RG_ENDS3(&e3, &u) == (ans[1][0] && ans[2][1] && ans[3][2]), "[C11] POST range_ends_with_accepts_a_range_of_exactly_the_listed_length");
-  __CPROVER_assert(RG_STARTS2(&s, &u) == (ans[1][0] && ans[2][1]), "[C11] POST range_starts_with_accepts_exactly_prefix_matches");
-  __CPROVER_assert(RG_ENDS2(&e, &u) == (ans[1][1] && ans[2][2]), "[C11] POST range_ends_with_accepts_exactly_suffix_matches");
+  __CPROVER_assert(RG_STARTS3(&s3, &u) == (in_ans[1][0] && in_ans[2][1] && in_ans[3][2]), "[C11] POST range_starts_with_accepts_a_range_of_exactly_the_listed_length");
+  __CPROVER_assert(RG_ENDS3(&e3, &u) == (in_ans[1][0] && in_ans[2][1] && in_ans[3][2]), "[C11] POST range_ends_with_accepts_a_range_of_exactly_the_listed_length");
+  __CPROVER_assert(RG_STARTS2(&s, &u) == (in_ans[1][0] && in_ans[2][1]), "[C11] POST range_starts_with_accepts_exactly_prefix_matches");
+  __CPROVER_assert(RG_ENDS2(&e, &u) == (in_ans[1][1] && in_ans[2][2]), "[C11] POST range_ends_with_accepts_exactly_suffix_matches");
   __CPROVER_assert(0, "REACH! r_starts_ends"); }
 void r_all_any_none(void) { init(); U(RG_ALL) RG_ALL_T0 a; RG_ANY_T0 y; RG_NONE_T0 n;
-  _Bool all = ans[1][0] && ans[1][1] && ans[1][2], any = ans[1][0] || ans[1][1] || ans[1][2];
+  _Bool all = in_ans[1][0] && in_ans[1][1] && in_ans[1][2], any = in_ans[1][0] || in_ans[1][1] || in_ans[1][2];
   __CPROVER_assert(RG_ALL(&a, &u) == all, "[C11] POST range_all_of_accepts_iff_every_member_is_accepted");
   __CPROVER_assert(RG_ANY(&y, &u) == any, "[C11] POST range_any_of_accepts_iff_some_member_is_accepted");
   __CPROVER_assert(RG_NONE(&n, &u) == !any, "[C11] POST range_none_of_accepts_iff_no_member_is_accepted");
